@@ -415,7 +415,12 @@ def run_to_completion(state: State, external_event: Union[dict, Event]) -> State
                         heads_matching.append(head)
                     else:
                         flow_state = get_flow_state_from_head(state, head)
-                        _abort_flow(state, flow_state, [])
+                        _abort_flow(
+                            state,
+                            flow_state,
+                            [],
+                            restart_flow=flow_state.status == FlowStatus.STARTED,
+                        )
 
                 # Advance front of all matching heads to actionable or match statements
                 for new_head in _advance_head_front(state, heads_matching):
@@ -955,6 +960,9 @@ def _advance_head_front(state: State, heads: List[FlowHead]) -> List[FlowHead]:
         if flow_state.status == FlowStatus.WAITING:
             flow_state.status = FlowStatus.STARTING
 
+        # Remember if the flow has already been started (i.e. reached a match statement before)
+        flow_was_started = flow_state.status == FlowStatus.STARTED
+
         flow_finished = False
         flow_aborted = False
         try:
@@ -1032,7 +1040,14 @@ def _advance_head_front(state: State, heads: List[FlowHead]) -> List[FlowHead]:
             _finish_flow(state, flow_state, head.matching_scores)
             log.debug("Flow finished: %s with last element", head.flow_state_uid)
         elif flow_aborted:
-            _abort_flow(state, flow_state, head.matching_scores)
+            # Avoid an activated flow that failed before it was started from restarting
+            # since this would end in an infinite loop (like for the immediately finished case)
+            _abort_flow(
+                state,
+                flow_state,
+                head.matching_scores,
+                restart_flow=flow_was_started,
+            )
             log.debug("Flow aborted: %s by 'abort' statement", head.flow_state_uid)
 
     # Make sure that all actionable heads still exist in flows, otherwise remove them
@@ -1488,8 +1503,15 @@ def _abort_flow(
     flow_state: FlowState,
     matching_scores: List[float],
     deactivate_flow: bool = False,
+    restart_flow: bool = True,
 ) -> None:
-    """Abort a flow instance and all its active child flows and decrement number of references of activated flow."""
+    """Abort a flow instance and all its active child flows and decrement number of references of activated flow.
+
+    An activated flow will be restarted unless it gets deactivated or 'restart_flow' is False.
+    The latter is used for activated flows that fail before they have started (i.e. before reaching
+    a match statement), since restarting them would end in an infinite loop. Such a flow fails once
+    (FlowFailed event) and stays activated, similar to an activated flow that immediately finishes.
+    """
 
     if deactivate_flow and _is_reference_activated_flow(state, flow_state):
         # It's a reference activated flow
@@ -1563,6 +1585,7 @@ def _abort_flow(
     # Restart the flow if it is an activated flow
     if (
         not deactivate_flow
+        and restart_flow
         and flow_state.activated > 0
         and not flow_state.new_instance_started
     ):
